@@ -479,8 +479,14 @@ func vfC07Run(t *testing.T, cs vfC07Case, out *vfC07Out, isKnown func(string) bo
 					if kind == 2 {
 						kind = 3
 					}
-					if cur := sl.cur.Load(); kind < 2 && (cur == nil || cur.ch != ch) {
-						continue
+					if kind < 2 {
+						// (it only waits while the reservation is still there; a parked ERROR reply has none)
+						sl.conn.Client.mu.RLock()
+						resv, ok := sl.conn.Client.channels[ch]
+						sl.conn.Client.mu.RUnlock()
+						if !ok || resv.subscribingCh == nil {
+							continue
+						}
 					}
 				}
 				a := sl.cur.Load()
